@@ -59,3 +59,33 @@ pub fn reg_validate_eval(case: &Value) -> Value {
     };
     json!({"validate": validate, "eval": eval, "detail": detail})
 }
+
+/// `{circuit, inputs: [[party bits…]…]}` → the register circuit produced by the real conversion,
+/// its validation verdict, and the outputs of both forms on every given input.
+pub fn convert(case: &Value) -> Value {
+    let c = ssa_from_json(&case["circuit"]);
+    let reg = match guarded(|| rc::Circuit::from(&c)) {
+        Ok(r) => r,
+        Err(p) => return json!({"panic": p}),
+    };
+    let validate = match guarded(|| reg.validate()) {
+        Ok(Ok(())) => "ok".to_string(),
+        Ok(Err(e)) => reg_err(&e),
+        Err(p) => format!("panic@{p}"),
+    };
+    let mut ssa_outs = vec![];
+    let mut reg_outs = vec![];
+    for ins in case["inputs"].as_array().cloned().unwrap_or_default() {
+        let ins = inputs_of(&ins);
+        ssa_outs.push(match guarded(|| c.eval(&ins)) {
+            Ok(b) => bits_to_string(&b),
+            Err(_) => "panic".into(),
+        });
+        reg_outs.push(match guarded(|| reg.eval(&ins)) {
+            Ok(b) => bits_to_string(&b),
+            Err(_) => "panic".into(),
+        });
+    }
+    json!({"reg": reg_to_json(&reg), "validate": validate, "ssa_outs": ssa_outs, "reg_outs": reg_outs,
+           "wires_len": c.wires_len(), "and_gates": c.and_gates()})
+}
